@@ -176,6 +176,35 @@ Theorem chunk_boundaries_invisible : forall pid tid cs st,
 Proof. exact ProofsTrace.emit_chunks_flat. Qed.
 Print Assumptions chunk_boundaries_invisible.
 
+(* ================================================================== trace: the recorder's map *)
+
+(* no recorded event is ever dropped or moved: for every sequence of attach (a thread's first
+   tracing call) / setThreadName / record operations over thread ids — ids may repeat, a later
+   thread may get the id of a finished one — the list kept under an id holds exactly the events
+   recorded under that id, in recording order *)
+Theorem registry_keeps_every_event : forall ops id, reg_evs (reg_run ops) id = recs_of id ops.
+Proof. exact ProofsTrace.reg_events_of. Qed.
+Print Assumptions registry_keeps_every_event.
+
+(* and the map holds nothing else: as many events as were recorded *)
+Theorem registry_holds_nothing_else : forall ops, length (reg_all (reg_run ops)) = rec_count ops.
+Proof. exact ProofsTrace.reg_total. Qed.
+Print Assumptions registry_holds_nothing_else.
+
+(* one entry per thread id *)
+Theorem registry_one_entry_per_id : forall ops, NoDup (map re_id (reg_run ops)).
+Proof. exact ProofsTrace.reg_keys_nodup. Qed.
+Print Assumptions registry_one_entry_per_id.
+
+(* saveLog over the map: the k-th entry is printed with tid k and the file holds, for it, exactly
+   the events recorded under its id (by however many successive threads), in recording order *)
+Theorem savelog_complete_registry : forall pname pid idtext ops k en,
+  (forall id, no_stray_end 0 (recs_of id ops) = true) ->
+  nth_error (reg_run ops) k = Some en ->
+  events_of_tid (N.of_nat k) (log_objs pname pid (reg_threads idtext (reg_run ops))) = recs_of (re_id en) ops.
+Proof. exact ProofsTrace.savelog_complete_registry. Qed.
+Print Assumptions savelog_complete_registry.
+
 (* ================================================================== non-vacuity *)
 Definition S_ (x : String.string) : str := Lit.s x.
 Arguments S_ x%string_scope.
@@ -301,3 +330,13 @@ Example ex_stray_end :
   no_stray_end 0 evs = false /\
   events_of_tid 0 (log_objs None 1 (threads_of [(S_ "t", evs)])) = [evM "a" 1].
 Proof. vm_compute. split; reflexivity. Qed.
+
+(* thread id 7 is used by two successive threads (the second attaches again and finds the list), id 9 by one *)
+Example ex_registry_id_reuse :
+  let ops := [RAttach 7; RName 7 (S_ "first"); RRec 7 (evM "a" 1); RRec 7 (evM "b" 2);
+              RAttach 9; RRec 9 (evM "x" 3);
+              RAttach 7; RRec 7 (evM "c" 4)] in
+  reg_evs (reg_run ops) 7 = [evM "a" 1; evM "b" 2; evM "c" 4] /\ reg_evs (reg_run ops) 9 = [evM "x" 3] /\
+  map re_id (reg_run ops) = [7; 9] /\ rec_count ops = 4%nat /\
+  events_of_tid 0 (log_objs None 1 (reg_threads (fun _ => S_ "TID") (reg_run ops))) = [evM "a" 1; evM "b" 2; evM "c" 4].
+Proof. vm_compute. repeat split; reflexivity. Qed.
